@@ -10,7 +10,7 @@ MATCHERS = ['wl_surface', 'wl_pointer.[motion, axis]', '! .frame', '*', '!', '5b
             ' wl_surface ', 'a, b ! c']
 BADMATCHERS = ['(', '[', 'a.b.c', 'x ! y ! z', '', ' ', 'wl_a@5', '"']
 VALUES = ['x y', 'a"b', 'c\\d', "it's", 'a\\nb', 'back\\\\slash', '\\', '"', "'", '""', 'tab\\t', '/tmp', 'file.log', 'r', 'g', 'run', 'gdb', '$HOME', '`x`', 'a;b', 'ü', '%s', '{0}',
-          'main.py', 'x=1', 'a,b']
+          'main.py', 'x=1', 'a,b', '\U0001F600 term', 'caf\u00e9 \u4e2d\u6587', '\U00020000']      # (also characters outside the Basic Multilingual Plane)
 MARK = ['-r', '--run', '-g', '--gdb']
 AFTER = ['prog', './a.out', '--verbose', '--color', '-f', 'x', '-r', '--gdb', '-g', '--run', 'a b', '', '-Cr', '--', '-l', '-h', '--help', '"q"', '\\', '-ex', 'run', '--args', '-p', '--pipe',
          'c\\d', "it's", '-b', '!', '--supress', '-C', '$X', '*', 'a"b',
@@ -42,6 +42,8 @@ def gen_vector(d, force_marker=None):
         else:
             o = d.choice(VAL)
             words += [o, gen_value(d, o)]
+    if d.chance(0.15):
+        words += [d.choice(['--libwayland', '-f']), d.choice(['\U0001F600 lib', 'x\U00020000y', 'wl_\U0001F600'])]      # outside the Basic Multilingual Plane
     has_marker = d.chance(0.8) if force_marker is None else True
     if has_marker:
         if force_marker is not None:
@@ -286,7 +288,7 @@ class GdbShim(Stage):
                 gout = open(rec + '.gdbout', 'rb').read().decode('utf-8', 'replace') if os.path.exists(rec + '.gdbout') else ''
                 res.bad('inner-instance-not-started', '%r: the python command gdb was given failed: %s' % (words, gout[-300:]))
                 return res
-            seen = json.load(open(pout))
+            seen = [''.join(chr(c) for c in w) for w in json.load(open(pout))]
             if seen != [probe] + left:
                 res.bad('inner-sys-argv', '%r: instance inside gdb sees %r, expected %r' % (words, seen[1:], left))
         res.nontrivial = classify(words, res)
@@ -308,6 +310,9 @@ class RunChild(Stage):
             # the program is a single word (an executable whose path contains a blank, a quote, a backslash...) followed by 0-2 words
             return dict(exe=d.choice(['child prog', "child's", 'a "b" c', 'back\\slash', 'plain', 'tab\there', 'x y z', '$HOME', 'a;b']),
                         after=[d.choice(AFTER) for _ in range(d.choice([0, 0, 0, 1, 2]))])
+        if d.chance(0.15):
+            # a program found through PATH by its bare name reports the name it was started under (argv[0], `$0`)
+            return dict(argv0=d.choice(['sh', 'dash', 'bash', 'sh']), after=[d.choice(AFTER) for _ in range(d.int(0, 2))])
         words = [d.choice(AFTER) if d.chance(0.8) else d.text(PRINTABLE, 0, 8) for _ in range(n)]
         if d.chance(0.5):
             # one of wayland-debug's own option spellings among the program's words: forwarded, never acted upon
@@ -317,6 +322,28 @@ class RunChild(Stage):
     def execute(self, after):
         res = Result()
         exe = None
+        if isinstance(after, dict) and 'argv0' in after:
+            import shutil
+            name, extra = after['argv0'], after['after']
+            if shutil.which(name) is None:
+                res.label('shell-not-installed(skipped)')
+                return res
+            with cli.Scratch() as sc:
+                outp = sc.path('argv0.txt')
+                rc, out, err = cli.run_main(['-C', '-r', name, '-c', 'cat /proc/$$/cmdline > "$WDV_ARGV0_OUT"', 'zero'] + extra,
+                                            stdin=b'q\n', extra_env=dict(WDV_ARGV0_OUT=outp), timeout=30)
+                if rc is None or b'Failed to join subprocess thread' in err:
+                    res.label('timeout(inconclusive)')
+                    return res
+                got = open(outp, 'rb').read().split(b'\0') if os.path.exists(outp) else None
+            # the kernel's record of how the program was started: every word as given, the first one included
+            want = [name.encode(), b'-c', b'cat /proc/$$/cmdline > "$WDV_ARGV0_OUT"', b'zero'] + [w.encode() for w in extra]
+            if got is None or got[:len(want)] != want:
+                res.bad('program-argv0', 'started as %r, the program\'s own command line reads %r' % ([name, '-c', '...', 'zero'] + extra, got and got[:len(want)]))
+            res.nontrivial = True
+            res.label('program-by-bare-name')
+            res.sample = after
+            return res
         if isinstance(after, dict):
             exe, after = after['exe'], after['after']
         with cli.Scratch() as sc:
